@@ -93,6 +93,11 @@ Case decode(Tape &t)
     c.src.push_back(s);
   }
   c.poll_after = (int64_t) t.weighted({ 2, 3, 1 }) == 0 ? 0 : (int64_t) t.range(0, 60000);
+  // a handle that lives for weeks: the first poll comes 2^31 .. 2^33 ms after the start, long after any deadline
+  if (t.chance(1, 12)) {
+    static const int64_t far[] = { 2147483647LL, 2147483648LL, 2147483700LL, 3000000000LL, 4294967295LL, 4294967296LL + 17, 6442450944LL, 8589934592LL + 3 };
+    c.poll_after = far[t.pick(8)] + (int64_t) t.pick(3) - 1;
+  }
   size_t np = (size_t) t.range(1, 3);
   for (size_t i = 0; i < np; i++) {
     PollCall p;
@@ -421,6 +426,7 @@ CaseResult run_case(Tape &t, long)
   if (saw_event_result) res.cls("event-came-first");
   if (saw_permuted) res.cls("permuted-rerun");
   if (saw_interrupted) res.cls("interrupted-by-signal");
+  if (c.poll_after >= 2147483646LL) res.cls("polled-weeks-after-start");
   if (saw_wait) res.cls("wait-checked");
   if (c.epoch > 2147483647LL) res.cls("epoch-beyond-2^31-ms");
   if (!w.trouble.empty()) {
